@@ -182,15 +182,30 @@ def dump(v):
   return '<%s>' % type(v).__name__
 
 
-def plain(t):
-  """JSON value tree -> plain python value handed to the API (objects are fresh instances)."""
+def has_flags(t):
+  """Does a value tree carry a non-default per-node flag (sealed, or accessor_writable flipped)?"""
+  if not is_node(t) or t['k'] == 'idict':
+    return False
+  return any(n.get('s') or n.get('w', True) != (CLASS_ACCW[n.get('c', 0)] if n['k'] == 'obj' else True)
+             for _, n in all_nodes(t))
+
+
+def plain(t, sink=None):
+  """JSON value tree -> value handed to the API: plain python containers (objects are fresh
+  instances); a value that carries its own flags (e.g. a value sealed before it is inserted) is built
+  as a parent-less symbolic value with exactly these flags and recorded in `sink` as (json, object)."""
   if not is_node(t):
     return t
+  if has_flags(t):
+    v = build_full(t)
+    if sink is not None:
+      sink.append((t, v))
+    return v
   if t['k'] == 'list':
-    return [plain(c) for c in t['items']]
+    return [plain(c, sink) for c in t['items']]
   if t['k'] in ('dict', 'idict'):        # idict: int keys (probe argument of List.rebind)
-    return {k: plain(c) for k, c in t['items']}
-  return classes()[t.get('c', 0)](**{k: plain(c) for k, c in t['items']})
+    return {k: plain(c, sink) for k, c in t['items']}
+  return classes()[t.get('c', 0)](**{k: plain(c, sink) for k, c in t['items']})
 
 
 def navigate(root, path):
@@ -200,11 +215,11 @@ def navigate(root, path):
   return v
 
 
-def do_call(node, call):
+def do_call(node, call, sink=None):
   import pyglove as pg
   n = call['name']
-  v = plain(call['v']) if 'v' in call else None
-  vs = [plain(x) for x in call['vs']] if 'vs' in call else None
+  v = plain(call['v'], sink) if 'v' in call else None
+  vs = [plain(x, sink) for x in call['vs']] if 'vs' in call else None
   i = call.get('i')
   key = call.get('key')
   if n == 'l_setitem':
@@ -238,9 +253,9 @@ def do_call(node, call):
   elif n == 'd_delitem':
     del node[key]
   elif n == 'd_ior':
-    operator.ior(node, {k: plain(x) for k, x in call['kvs']})
+    operator.ior(node, {k: plain(x, sink) for k, x in call['kvs']})
   elif n == 'd_update':
-    node.update({k: plain(x) for k, x in call['kvs']})
+    node.update({k: plain(x, sink) for k, x in call['kvs']})
   elif n == 'd_setdefault':
     node.setdefault(key, v)
   elif n == 'd_pop':
@@ -257,7 +272,7 @@ def do_call(node, call):
   elif n in ('d_delattr', 'o_delattr'):
     delattr(node, key)
   elif n == 'rebind':
-    node.rebind({pg.KeyPath(list(p)): plain(x) for p, x in call['pairs']})
+    node.rebind({pg.KeyPath(list(p)): plain(x, sink) for p, x in call['pairs']})
   else:
     raise AssertionError('unknown call ' + n)
 
@@ -272,8 +287,9 @@ def classify(e):
   return type(e).__name__
 
 
-def run_call(root, step, extra_sealed=(), extra_acc=()):
-  """Runs one call step inside its scopes; returns the outcome class."""
+def run_call(root, step, extra_sealed=(), extra_acc=(), sink=None):
+  """Runs one call step inside its scopes; returns the outcome class. `sink` collects the flagged
+  symbolic values handed to the call as (json, object)."""
   import pyglove as pg
   res = 'ok'
   with contextlib.ExitStack() as stack:
@@ -288,7 +304,7 @@ def run_call(root, step, extra_sealed=(), extra_acc=()):
         with contextlib.redirect_stdout(io.StringIO()):
           getattr(node, step['method'])(*args)
       else:
-        do_call(node, step['call'])
+        do_call(node, step['call'], sink)
     except Exception as e:    # pylint: disable=broad-except
       res = classify(e)
   return res
@@ -391,7 +407,25 @@ class Gen:
     r = self.r
     if r.chance(0.7):
       return self.atom()
+    if r.chance(0.3):
+      return self.sealed_value(r.below(2))
     return self.tree(r.below(2))
+
+  def sealed_value(self, depth, kind=None, shallow_ok=False):
+    """A value that was sealed (deeply, as `seal()` leaves it) before it is handed to the call;
+    now and then with flipped accessor flags or (`shallow_ok`: only where the value is not cloned on
+    its way into the tree, clone semantics being C07's) an unsealed descendant."""
+    r = self.r
+    v = self.tree(depth, kind)
+    set_deep(v, 's', True)
+    nodes = all_nodes(v)
+    if r.chance(0.15):
+      for _, n in nodes:
+        if r.chance(0.3):
+          n['w'] = not n['w']
+    if shallow_ok and len(nodes) > 1 and r.chance(0.1):
+      r.choice(nodes[1:])[1]['s'] = False
+    return v
 
   def scopes(self):
     r = self.r
@@ -528,6 +562,15 @@ class Gen:
     return steps
 
 
+def call_values(call):
+  """The value arguments of a call."""
+  out = [call['v']] if 'v' in call else []
+  out += list(call.get('vs', []))
+  out += [x for _, x in call.get('kvs', [])]
+  out += [x for _, x in call.get('pairs', [])]
+  return out
+
+
 def sortable(node):
   return len(node['items']) <= 1 or all(isinstance(x, int) for x in node['items'])
 
@@ -626,6 +669,7 @@ class C08(Prop):
       yield {'tree': t, 'steps': g.steps_for(t)}
     yield from self.history_cases(rng, 150 if tier == 'quick' else 3000)
     yield from self.mixed_rebind_cases(rng, 60 if tier == 'quick' else 1500)
+    yield from self.dependent_batch_cases(rng, 400 if tier == 'quick' else 8000)
     yield from self.grid_cases()
     yield from self.discovered_cases()
     yield from self.shallow_seal_cases()
@@ -702,6 +746,74 @@ class C08(Prop):
       made += 1
       yield {'tree': t, 'steps': [{'kind': 'call', 'recv': [], 'sealed_scopes': rng.choice([[], [None], [False, None]]),
                                    'acc_scopes': [], 'call': {'name': 'rebind', 'pairs': pairs}}]}
+
+  def dependent_batch_cases(self, rng, n):
+    """One batched rebind in which a pair inserts a value that was sealed beforehand (under a new
+    key, or in place of an existing unsealed child) and another pair of the same batch addresses a
+    key at or below that very path -- so the target only becomes sealed *during* the batch. Both
+    orders, optional unrelated third pair, receivers of every kind at every depth."""
+    g = Gen(rng)
+    made = 0
+    for _ in range(n * 4):
+      if made >= n:
+        break
+      t = g.tree(rng.randint(1, 3), rng.choice(['dict', 'obj', 'list', 'dict']))
+      if rng.chance(0.2):
+        g.flags(t)
+      nodes = all_nodes(t)
+      rpath, recv = rng.choice(nodes)
+      sub = all_nodes(recv)
+      ppath, par = rng.choice(sub)
+      keys = [k for k, _ in children(par)]
+      if par['k'] == 'list':
+        k = rng.randint(0, len(keys))
+      elif par['k'] == 'obj':
+        k = rng.choice(FIELDS)
+      else:
+        k = rng.choice(keys) if keys and rng.chance(0.5) else rng.choice(DKEYS + ['n'])
+      vkind = rng.choice(['dict', 'list', 'obj', 'dict'])
+      v = g.sealed_value(rng.randint(0, 2), vkind, shallow_ok=True)
+      if not rng.chance(0.85):
+        set_deep(v, 's', False)                  # control: the inserted value is not sealed
+      inner = all_nodes(v)
+      qpath, q = rng.choice(inner)
+      qkeys = [kk for kk, _ in children(q)]
+      if q['k'] == 'list':
+        k2 = rng.randint(0, len(qkeys))
+      elif q['k'] == 'obj':
+        k2 = rng.choice(FIELDS)
+      else:
+        k2 = rng.choice(qkeys) if qkeys and rng.chance(0.6) else rng.choice(DKEYS)
+      P = list(ppath) + [k]
+      pairs = [[P, v], [P + list(qpath) + [k2], g.atom() if rng.chance(0.8) else g.tree(0)]]
+      # the pair below is applied *before* the insertion when it comes first (Dict / Object receivers
+      # apply in the given order) or when the receiver is a List (descending path order): it then
+      # meets the old occupant of that path, which must accept the key type (or not exist at all).
+      old_p = get_at(recv, P)
+      old_q = get_at(recv, P + list(qpath))
+      compatible = not is_node(old_p) or (is_node(old_q) and old_q['k'] == q['k'])
+      if compatible and rng.chance(0.25):
+        pairs.reverse()
+      if recv['k'] == 'list' and not compatible:
+        continue
+      if rng.chance(0.35):
+        others = [(pp, x) for pp, x in sub if pp[:len(P)] != P and P[:len(pp) + 1] != list(pp) + P[len(pp):len(pp) + 1]]
+        if others:
+          op_, ox = rng.choice(others)
+          if ox['k'] == 'list':
+            ok_ = rng.randint(0, len(ox['items']))
+          elif ox['k'] == 'obj':
+            ok_ = rng.choice(FIELDS)
+          else:
+            ok_ = rng.choice(DKEYS)
+          extra = [list(op_) + [ok_], g.atom()]
+          if extra[0] != P:
+            pairs.insert(rng.randint(0, len(pairs)), extra)
+      made += 1
+      yield {'tree': t, 'steps': [{'kind': 'call', 'recv': rpath,
+                                   'sealed_scopes': rng.choice([[], [], [], [None], [False], [True], [False, None]]),
+                                   'acc_scopes': rng.choice([[], [], [False]]),
+                                   'call': {'name': 'rebind', 'pairs': pairs}, 'dependent': True}]}
 
   def grid_cases(self):
     stacks = [[], [True], [False], [None], [True, None], [None, True], [False, True], [True, False], [None, None, False]]
@@ -792,12 +904,17 @@ class C08(Prop):
       o = {}
       if step['kind'] in ('call', 'generic'):
         jb = pg.to_json(root)
-        o['res'] = run_call(root, step)
+        sink = []
+        o['res'] = run_call(root, step, sink=sink)
         o['json_same'] = pg.to_json(root) == jb
+        # the flagged (e.g. sealed) values handed to the call: what they look like afterwards
+        o['ins'] = [{'v': vj, 'after': dump(v)} for vj, v in sink]
         # would the call change anything if nothing were sealed / if accessors were writable?
         r1 = build_full(pre)
-        o['unsealed'] = {'res': run_call(r1, step, extra_sealed=[False])}
+        sink1 = []
+        o['unsealed'] = {'res': run_call(r1, step, extra_sealed=[False], sink=sink1)}
         o['unsealed']['changes'] = dump(r1) != pre
+        o['unsealed']['ins_changed'] = [dump(v) != vj for vj, v in sink1]
         r2 = build_full(pre)
         o['acc_true'] = {'res': run_call(r2, step, extra_acc=[True])}
         o['acc_true']['tree'] = dump(r2)
@@ -854,8 +971,19 @@ class C08(Prop):
           t = get_at(recv, p[:-1])
           if is_node(t):
             targets.append(t)
+    # nodes of values inserted by one pair of a batch that another pair of the same batch addresses:
+    # whether such a node is the target of a write depends on the time at which the pair is applied.
+    dyn = []
+    if name == 'rebind':
+      for p, _ in step['call']['pairs']:
+        for p2, v2 in step['call']['pairs']:
+          if p2 != p and len(p2) < len(p) and p[:len(p2)] == p2 and is_node(v2):
+            t = get_at(v2, p[len(p2):-1])
+            if is_node(t):
+              dyn.append(t)
     strong = [t for t in targets if eff_s is True or (eff_s is None and deep_flag(t, 's', True))]
     weak = [t for t in targets if eff_s is True or (eff_s is None and t['s'])]
+    weak_dyn = [t for t in dyn if eff_s is True or (eff_s is None and t['s'])]
     acc_prot = eff_a is False or (eff_a is None and not recv['w'])
     changed = o['tree'] != pre or not o['json_same']
     # R1: sealed (by flag, deeply, or by scope) => nothing changes; WPE if it would have changed.
@@ -872,6 +1000,22 @@ class C08(Prop):
         return {'signature': 'sealed-no-error:' + name,
                 'what': '%s on a sealed value (scope=%s) would change it but ended with %s instead of '
                         'WritePermissionError' % (name, ss, o['res'])}
+    # R1b: a value that was sealed before it was handed to the call (e.g. inserted by one pair of a
+    # batched rebind and addressed by another pair of the same batch) never changes; if the call would
+    # change it (it does inside as_sealed(False)), the call ends in WritePermissionError.
+    if eff_s is None:
+      for i, ins in enumerate(o.get('ins', [])):
+        if not deep_flag(ins['v'], 's', True):
+          continue
+        if ins['after'] != ins['v']:
+          return {'signature': 'sealed-value-modified:' + name,
+                  'what': '%s (scope=%s) changed a value that was sealed before it was handed to the call: '
+                          '%s -> %s (outcome %s)' % (name, ss, ins['v'], ins['after'], o['res'])}
+        would = o['unsealed'].get('ins_changed', [])
+        if i < len(would) and would[i] and o['res'] != 'perm':
+          return {'signature': 'sealed-value-no-error:' + name,
+                  'what': '%s (scope=%s) would change the sealed value %s handed to it but ended with %s '
+                          'instead of WritePermissionError' % (name, ss, ins['v'], o['res'])}
     # R2: accessor protection.
     if acc_prot and name in ACCESSOR_OPS and not weak:
       if changed:
@@ -887,7 +1031,7 @@ class C08(Prop):
               'what': 'rebind under acc scopes %s / flag %s: %s; with allow_writable_accessors(True): %s' % (
                   as_, recv['w'], o['res'], o['acc_true']['res'])}
     # R3: nothing sealed, accessors writable => never a permission error.
-    if not weak and not acc_prot and o['res'] == 'perm':
+    if not weak and not weak_dyn and not acc_prot and o['res'] == 'perm':
       return {'signature': 'spurious-permission-error:' + name,
               'what': '%s raised WritePermissionError although no target is sealed (scope=%s) and accessor '
                       'writes are allowed (scope=%s)' % (name, ss, as_)}
@@ -913,6 +1057,8 @@ class C08(Prop):
         r = get_at(t, s['recv'])
         if is_node(r) and (r['s'] or not r['w']):
           return True
+        if s['kind'] == 'call' and any(has_flags(x) for x in call_values(s['call'])):
+          return True
     return False
 
   def describe(self, case, out):
@@ -929,6 +1075,12 @@ class C08(Prop):
         r = get_at(case['tree'], s['recv'])
         if is_node(r):
           h.append('recv:%s sealed=%s accW=%s' % (r['k'], r['s'], r['w']))
+        if s.get('dependent'):
+          h.append('dependent-batch')
+        if any(deep_flag(i['v'], 's', True) for i in o.get('ins', [])):
+          h.append('sealed-value-handed-in')
+          if any(o.get('unsealed', {}).get('ins_changed', [])):
+            h.append('call-would-change-sealed-value')
         if o['res'] == 'perm':
           h.append('refused')
         elif o.get('unsealed', {}).get('changes') is False:
